@@ -295,7 +295,7 @@ def run_check(modname, tier, seed):
     # witnesses: a deterministic sample of feasible-path models, replayed on the real build
     allw = [w for r in results for w in r.get("witnesses", []) if not w.get("always")]
     always = [w for r in results for w in r.get("witnesses", []) if w.get("always")]      # scenario / conformance replays that run every time
-    n_w = int(os.environ.get("VERIF_WITNESSES", "8" if tier == "quick" else "24"))
+    n_w = int(os.environ.get("VERIF_WITNESSES", "8" if tier == "quick" else "24").replace("all", "100000"))
     if len(allw) > n_w:
         step = len(allw) / float(n_w)
         allw = [allw[int(((i + (seed % 7) / 7.0) * step)) % len(allw)] for i in range(n_w)]
